@@ -307,8 +307,10 @@ impl<E: FieldElement> OpFlags<E> {
         no_shift_flags[5] = no_shift_flags[4] + mov4_flag;
         no_shift_flags[6] = no_shift_flags[5] + mov5_flag;
         no_shift_flags[7] = no_shift_flags[6] + mov6_flag;
-        no_shift_flags[8] =
-            no_shift_flags[7] + mov7_flag + degree7_op_flags[24] - degree7_op_flags[28];
+        no_shift_flags[8] = no_shift_flags[7] + mov7_flag + degree7_op_flags[24]
+            - degree7_op_flags[28]
+            + degree5_op_flags[2] // PIPE
+            + degree5_op_flags[3]; // MSTREAM
 
         no_shift_flags[9] = no_shift_flags[8] + mov8_flag;
         no_shift_flags[10] = no_shift_flags[9];
@@ -868,6 +870,18 @@ impl<E: FieldElement> OpFlags<E> {
     #[inline(always)]
     pub fn hperm(&self) -> E {
         self.degree5_op_flags[get_op_index(Operation::HPerm.op_code())]
+    }
+
+    /// Operation Flag of PIPE operation.
+    #[inline(always)]
+    pub fn pipe(&self) -> E {
+        self.degree5_op_flags[get_op_index(Operation::Pipe.op_code())]
+    }
+
+    /// Operation Flag of MSTREAM operation.
+    #[inline(always)]
+    pub fn mstream(&self) -> E {
+        self.degree5_op_flags[get_op_index(Operation::MStream.op_code())]
     }
 
     /// Operation Flag of MPVERIFY operation.
